@@ -79,6 +79,28 @@ class AppErrUBad(AppErrU):
         raise RuntimeError('__repr__ raises')
 
 
+class _OtherErr(Exception):
+    """an unrelated application error family (no handler registered for it)"""
+
+
+class AppErrHSub(AppErrH):
+    pass
+
+
+class AppErrHSecond(_OtherErr, AppErrH):
+    """reaches the class the handler is registered for through its SECOND base"""
+
+
+class AppErrHDiamond(AppErrHSub, AppErrHSecond):
+    pass
+
+
+EXC_SHAPES = {'direct': AppErrH, 'subclass': AppErrHSub, 'second_base': AppErrHSecond, 'diamond': AppErrHDiamond}
+EXC_SHAPE_NAMES = tuple(EXC_SHAPES)
+_HOSTILE = {k: type(v.__name__ + 'Bad', (v,), {'__str__': AppErrHBad.__str__, '__repr__': AppErrHBad.__repr__})
+            for k, v in EXC_SHAPES.items()}
+
+
 class LifespanErrBadStr(RuntimeError):
     def __str__(self):
         raise ValueError('__str__ raises')
@@ -158,7 +180,7 @@ class Ctx:
             raise falcon.HTTPStatus(M.status_status(self.codes, site))
         hostile = self.script.get('hostile_exc')
         if a == 'app_handled':
-            raise (AppErrHBad if hostile else AppErrH)(site)
+            raise (_HOSTILE if hostile else EXC_SHAPES)[self.script.get('exc_shape') or 'direct'](site)
         if a == 'app_unhandled':
             raise (AppErrUBad if hostile else AppErrU)(site)
         raise AssertionError('unknown action %r' % (a,))
@@ -503,6 +525,9 @@ def build_app(script, stack, lctx=None, defer_from=None):
             bad = build_component(Ctx(script), EXTRA + 1, {'req': 'plain', 'rsrc': None, 'resp': None},
                                   'asgi' if stack == 'wsgi' else 'wsgi')
         payload = [extra, bad] if not ref.get('order') else [bad, extra]
+        if ref.get('repeat') is not None:
+            # the refused batch also repeats a component that is already part of the stack (same instance)
+            payload = [mw for i, mw in mws if i == ref['repeat'] and mw in first] + payload
         try:
             app.add_middleware(payload)
             ctx.refusal = 'accepted'
@@ -678,7 +703,8 @@ def script_key(script):
             script.get('ctor'), script.get('add_single'), script.get('add_after_requests'),
             tuple(sorted((script.get('forms') or {}).items())), script.get('mw_arg'), script.get('cors'),
             tuple(sorted((script.get('hook_forms') or {}).items())), script.get('hform'), script.get('sform'),
-            script.get('hostile_exc'), tuple(sorted((script.get('refused') or {}).items())))
+            script.get('hostile_exc'), tuple(sorted((script.get('refused') or {}).items())),
+            script.get('exc_shape'))
 
 
 def case_key(skey, case):
@@ -818,7 +844,8 @@ def exhaustive(rec):
                               hook_forms=EXH_HOOK_FORMS[(si // 2 + independent) % len(EXH_HOOK_FORMS)],
                               hform=M.SYNC_HOOK_FORMS[(si + independent) % len(M.SYNC_HOOK_FORMS)],
                               sform=M.SYNC_HOOK_FORMS[(si + 2 + independent) % len(M.SYNC_HOOK_FORMS)],
-                              hostile_exc=bool((si // 3 + independent) % 2))
+                              hostile_exc=bool((si // 3 + independent) % 2),
+                              exc_shape=EXC_SHAPE_NAMES[(si + 3 * independent) % len(EXC_SHAPE_NAMES)])
                 idx += 1
                 if idx % rec.nshards != rec.shard:
                     continue
@@ -908,11 +935,14 @@ def config_histories_exhaustive(rec):
             for ctor in (None, 0, 1):
                 for reprepare in (False, True):
                     for single in (False, True):
-                        sc = dict(base, comps=[c0, c1], cors=(why == 'cors'), add_single=single,
-                                  refused={'why': why, 'order': order, 'reprepare': reprepare})
-                        if ctor is not None:
-                            sc['ctor'] = ctor
-                        jobs.append(('refused.' + why, sc))
+                        for repeat in (None, 0) if ctor != 0 else (None,):
+                            ref = {'why': why, 'order': order, 'reprepare': reprepare}
+                            if repeat is not None:
+                                ref['repeat'] = repeat
+                            sc = dict(base, comps=[c0, c1], cors=(why == 'cors'), add_single=single, refused=ref)
+                            if ctor is not None:
+                                sc['ctor'] = ctor
+                            jobs.append(('refused.repeat' if repeat is not None else 'refused.' + why, sc))
     for n in (1, 2):
         for mask in range(1, 2 ** n):
             comps = [dict((c0, c1)[k], falsy=bool(mask >> k & 1)) for k in range(n)]
@@ -984,6 +1014,7 @@ def random_script(rng):
     script['hform'] = rng.choice(M.SYNC_HOOK_FORMS)
     script['sform'] = rng.choice(M.SYNC_HOOK_FORMS)
     script['hostile_exc'] = rng.random() < 0.3
+    script['exc_shape'] = rng.choice(EXC_SHAPE_NAMES)
     for c in comps:
         if rng.random() < 0.15:
             c['falsy'] = True
@@ -1265,6 +1296,8 @@ def set_floors(rec):
                   'form.wrapped.classhook', 'form.object.classhook.inherited'):
             rec.floor('cls.%s.%s' % (stack, c), 20)
         rec.floor('site.%s.req.reroute' % stack, 50)
+        for sh in EXC_SHAPE_NAMES:
+            rec.floor('cls.%s.excshape.%s' % (stack, sh), 20)
         for orig, target, _ in REROUTES:
             rec.floor('cls.%s.reroute.%s->%s' % (stack, orig, target), 10)
         for hf in M.SYNC_HOOK_FORMS:
@@ -1288,7 +1321,7 @@ def set_floors(rec):
     rec.floor('lifespan.ge3_handlers', 5)
     for k in RAISE_KINDS:
         rec.floor('lifespan.raise_kind.' + k, 20)
-    for lab in ('refused.cors', 'refused.nomethods', 'refused.compat', 'falsy_component'):
+    for lab in ('refused.cors', 'refused.nomethods', 'refused.compat', 'refused.repeat', 'falsy_component'):
         rec.floor('cfg.' + lab, 20)
         rec.floor('cfg.lifespan.' + lab, 20)
     for lf in LFORMS:
